@@ -210,6 +210,19 @@ def logger_rules(chk):
             ks = [k.value for k in dnode.keys if isinstance(k, ast.Constant)]
             if "value" in ks and "demand" in ks:
                 test_keys, test_name, test_is_function = set(ks), nm, is_fn
+    # the validation mapping's own lookup: a field is known iff its KEY is present -- `.get()` plus a None / truthiness test
+    # cannot tell an absent field from one whose test value is None (the documented `target` field of an unnamed pool)
+    if test_name is not None:
+        tnode = table_defs[test_name][0]
+        ctor = tnode.value.func if isinstance(tnode.value, ast.Call) else None
+        mcls = prog.classes.get(prog.resolve(mod, ctor) or "") if ctor is not None else None
+        gi = prog.lookup_method(mcls, "__getitem__") if mcls is not None else None
+        if gi is not None and gi.cls is not None and gi.cls.module is mod:
+            chk.count()
+            gets = [c for c in ast.walk(gi.node) if isinstance(c, ast.Call) and isinstance(c.func, ast.Attribute) and c.func.attr in ("get", "setdefault", "pop") and (util.dotted(c.func.value) in ("self", "dict") or (isinstance(c.func.value, ast.Call) and util.dotted(c.func.value.func) == "super"))]
+            raises_key = any(isinstance(r, ast.Raise) and r.exc is not None and "KeyError" in util.unparse(r.exc) for r in ast.walk(gi.node))
+            if gets and raises_key:
+                chk.bad("O16.4", gi.qual, "the validation mapping decides whether a field exists from the VALUE it finds (%s, then raise KeyError): a documented field whose test value is None / falsy (%%(target)s) is reported as unknown, so every template naming it is refused at construction" % util.unparse(gets[0])[:40], node=gets[0], stmt="field-presence-by-value")
     r4 = "O16.4"
     chk.count()
     if test_keys is None:
@@ -264,7 +277,38 @@ def logger_rules(chk):
         chk.ok(rule, init.qual, "logger name, level and template are stored as configured; logger obtained by logging.getLogger(name)", node=init.node)
 
 
+def no_write_on_failure_path(chk):
+    """O16.6: what a decorator does around a demand write (the log record) happens BEFORE the write and its failure stops the
+    write: a write to the target's demand inside `finally` / `except` reaches the pool although the step before it failed --
+    an unrecorded change, and a second failure there masks the first"""
+    prog = chk.program
+    rule = "O16.6"
+    n = 0
+    ok = True
+    for cls in prog.classes.values():
+        if not prog.is_subclass(cls.qual, DECO) or cls.qual == DECO:
+            continue
+        for fis in cls.methods.values():
+            for fi in fis:
+                for t in ast.walk(fi.node):
+                    if not isinstance(t, ast.Try):
+                        continue
+                    blocks = [(h.body, "except") for h in t.handlers] + ([(t.finalbody, "finally")] if t.finalbody else [])
+                    for body, what in blocks:
+                        for st in body:
+                            for a in ast.walk(st):
+                                for x in a.targets if isinstance(a, ast.Assign) else ([a.target] if isinstance(a, ast.AugAssign) else []):
+                                    n += 1
+                                    chk.count()
+                                    if isinstance(x, ast.Attribute) and x.attr == "demand" and util.unparse(x.value).endswith("target"):
+                                        chk.bad(rule, fi.qual, "the target's demand is written inside `%s`: the write reaches the pool although what precedes it (the log record of the change) failed, so the pool changes without a record, and a failure of the write itself masks the original error" % what, node=a, stmt="target-written-in-%s" % what)
+                                        ok = False
+    if ok:
+        chk.ok(rule, "<decorators>", "no decorator writes the target's demand inside an except handler or a finally block (%d stores on failure paths)" % n)
+
+
 def run(chk):
+    chk.guard("O16.6", "<decorators>", no_write_on_failure_path, chk)
     chk.guard("O16.1", DECO, forwarding, chk)
     chk.guard("O16.2", "<decorators>", census, chk)
     chk.guard("O16.3", LOGGER, logger_rules, chk)
